@@ -15,7 +15,7 @@ from sim import cvcase, cvrun, driver
 PROPERTY = 'C06'
 ENGINE = 'cv-sched'
 BUDGET_S = {'quick': 150, 'thorough': 1500}
-CASE_TIMEOUT_S = 600
+CASE_TIMEOUT_S = 1200
 STUBS = ['pathos ParallelPool -> SimPool (pickle isolation, PRNG order, worker exception -> None)',
          'cli.common.signal -> FakeSignal (fires only in the threads-under-timeout executions)']
 PROBES = ['corpus_case', 'batch_with_skipped_tx', 'last_batch_partial', 'threads_gt_1', 'multi_file', 'idx_used',
